@@ -44,6 +44,8 @@ EXPLANATION = (
 )
 EXPLANATION_ADD = ' Additions: (ORDER-dedup) loop filter before de-duplication, which is last; (IDX-peer) the peer index is the position in the unadapted peer_entries.'
 EXPLANATION = EXPLANATION + EXPLANATION_ADD
+EXPLANATION_ADD6 = " Round-6 addition: (META-mtu/-expiry/-order/-if/-ends, shared with C04) 'consistent with their own metadata': the metadata of a returned path is computed from the very hop fields and AS entries that were put into the encoded path (expiry = StandardPath::expiration() of the encoded path, interface list in travel order, endpoints = first/last listed interface)."
+EXPLANATION = EXPLANATION + EXPLANATION_ADD6
 RESIDUAL = [
     "the degree of the polynomial bound (number of solutions is bounded by |edges|^3, not computed)",
     "that returned paths encode, parse back and are consistent with their metadata (values; C03/C04)",
@@ -287,6 +289,9 @@ def run(F, R, tier, cfg):
     key_rule(F, R)
     order_rule(F, R)
     enum_index_rule(F, R)
+    # 'consistent with their own metadata': the META-* rules are shared with C04
+    import c04
+    c04.meta_rules(F, R)
 
 
 ADD_SEG = G + "MultiGraph::<'a, F, EntryType>::add_segment"
